@@ -63,6 +63,7 @@ pub fn cfg_for(scn: &Scenario, r: &Ref, replay: Option<Vec<u16>>, tolerant: bool
         tolerant_replay: tolerant,
         est_steps: (2 * r.work + 8).max(16),
         starve_release: scn.starve_release,
+        quiet: scn.quiet,
     }
 }
 
